@@ -67,8 +67,8 @@ Proof. unfold overflow_N. intros H. lia. Qed.
 Lemma digit_val_digit letters c : is_digit c = true -> digit_val letters c = Some (c - 48).
 Proof. unfold is_digit, digit_val. intros ->. reflexivity. Qed.
 
-Lemma digit_val_delim c : c = 0 \/ c = 32 \/ c = 41 \/ c = 93 -> digit_val false c = None.
-Proof. intros [->|[->|[->| ->]]]; reflexivity. Qed.
+Lemma digit_val_delim c : c = 0 \/ delim_ok [c] -> digit_val false c = None.
+Proof. intros [->|H]; [reflexivity|]. delim_cases H; reflexivity. Qed.
 
 Section NumLit.
   Variable fast : bool.
@@ -87,8 +87,8 @@ Section NumLit.
     intros Hd Ha. unfold parse_num_tail. destruct rest as [|d rest].
     - step. change (0 =? 46) with false. change ((0 =? 101) || (0 =? 69)) with false. cbv iota.
       exists r0. unfold int_result, ret. destruct pos; [|destruct (9223372036854775808 <? n)]; repeat split; auto.
-    - step. assert (E1 : (d =? 46) = false) by (destruct Hd as [?|[?|?]]; lia).
-      assert (E2 : ((d =? 101) || (d =? 69)) = false) by (destruct Hd as [?|[?|?]]; lia). rewrite E1, E2.
+    - step. assert (E1 : (d =? 46) = false) by (delim_cases Hd; reflexivity).
+      assert (E2 : ((d =? 101) || (d =? 69)) = false) by (delim_cases Hd; reflexivity). rewrite E1, E2.
       exists r0. unfold int_result, ret. destruct pos; [|destruct (9223372036854775808 <? n)]; repeat split; auto.
   Qed.
 
@@ -100,7 +100,7 @@ Section NumLit.
     induction ds as [|d ds IH]; intros fuel r pos res rest Hf Hd Hr Hmax Ha;
       (destruct fuel as [|f]; [cbn in Hf; lia|]); cbn [num_literal_loop]; change (10 <? 10) with false; cbn [app] in Ha.
     - assert (Hdv : digit_val false (match rest with [] => 0 | b :: _ => b end) = None).
-      { apply digit_val_delim. destruct rest as [|b rest]; [auto|]. destruct Hr as [?|[?|?]]; auto. }
+      { apply digit_val_delim. destruct rest as [|b rest]; [auto|]. right; exact Hr. }
       destruct rest as [|b rest].
       + step. rewrite Hdv. destruct (num_tail_delim f r0 pos res [] Hr Ha0) as (r1 & E & Ha1 & Hk1).
         exists r1. cbn [dfold fold_left]. repeat split; auto; congruence.
@@ -138,7 +138,7 @@ Section NumLit.
     rewrite (bind_ok _ _ _ _ _ E1).
     destruct rest as [|b rest].
     - step. exists r0. unfold ret. repeat split; auto; congruence.
-    - step. assert (Ed : is_delimiter b = true) by (destruct Hr as [->|[->| ->]]; reflexivity). rewrite Ed.
+    - step. assert (Ed : is_delimiter b = true) by (delim_cases Hr; reflexivity). rewrite Ed.
       exists r0. unfold ret. repeat split; auto; congruence.
   Qed.
 
